@@ -53,6 +53,10 @@ def scenario_steps(rng, kind, reloads):
         for _ in range(rng.randint(1, 3)):
             st.append({"sleep": rng.choice([0.05, 0.2]), "post": rng.choice(["exclude", "down+exclude"])})
             st.append({"sleep": 0, "post": rng.choice(["put(x)", "put(y)", "backward-delete-char", "toggle-sort", "put(a)"])})
+    elif kind == "tail":
+        for _ in range(rng.randint(3, 6)):
+            st.append({"sleep": rng.choice([0.3, 0.6, 1.0]), "post": rng.choice(["change-query(x)", "change-query(ab)", "clear-query", "put(y)",
+                                                                                 "toggle-sort", "backward-delete-char", "change-query(xy)"])})
     elif kind == "reload-race":
         # a reload immediately followed by another query-changing action while input is still streaming in
         add("change-query(%s)" % rng.choice(["x", "y", "a", ""]))
@@ -219,7 +223,7 @@ def run_session(ctx, fzf, sid, lines, sched, steps, extra_args=(), width=70, hei
         s.close()
 
 
-def project(trace, get, sid, cmdmap=None):
+def project(trace, get, sid, cmdmap=None, tail=0, sizes=None):
     """Hook trace -> Trace_Pipeline events; returns (events, oracle_keys, cfgs).  Every `reset` event is annotated with
     cfg = index into cfgs of the configuration its pattern/snapshot was built under: (input number of the snapshot's major
     revision (-1 = initial input, k = reload command k), excluded item indices in effect, --nth expression in effect), and
@@ -227,7 +231,8 @@ def project(trace, get, sid, cmdmap=None):
     The exclusion list and nth are the coordinator's own state: exclusions are cleared by a reload (at restart, or for
     reload-sync when the new input is complete), nth survives; a request issued right after a reload may still carry the
     OLD snapshot (old revision) together with the NEW (empty) exclusion list."""
-    evs = [{"ev": "start", "sid": sid}]
+    evs = [{"ev": "start", "sid": sid, "tail": tail}]
+    sizes = sizes or {}
     keys = set()
     cmdmap = cmdmap or {}
     major_input = {0: -1}
@@ -243,7 +248,7 @@ def project(trace, get, sid, cmdmap=None):
         return cfgs.index(c)
 
     def req(e):
-        return {"q": e["q"], "count": e["count"], "final": e["final"], "sort": e["sort"], "rev": e["rev"]}
+        return {"q": e["q"], "lo": e.get("first", 0), "count": e["count"], "final": e["final"], "sort": e["sort"], "rev": e["rev"]}
     saw = []
     last_cfg = 0
     issued = []             # (fields, cfg) of announced requests, oldest first
@@ -291,9 +296,9 @@ def project(trace, get, sid, cmdmap=None):
             last_cfg = c
             issued.append((req(e), c))
             evs.append(dict(req(e), ev="reset", cancel=e["cancel"], cfg=c, pcfg=pc, seq=e["seq"]))
-            keys.add((e["q"], e["count"], e["sort"], c))
+            keys.add((e["q"], e.get("first", 0), e["count"], e["sort"], c))
             if pc >= 0:
-                keys.add((e["q"], e["count"], e["sort"], pc))
+                keys.add((e["q"], e.get("first", 0), e["count"], e["sort"], pc))
         elif k in ("match.cachehit", "match.cancelled"):
             evs.append(dict(req(e), ev=k.split(".")[1], seq=e["seq"]))
             if k == "match.cancelled":
@@ -321,21 +326,26 @@ def project(trace, get, sid, cmdmap=None):
     # the order of exclusions is irrelevant for the oracle; reuse the coordinator's configuration when the sets agree
     if cfgs and cfgs[last_cfg][0] == wanted_input and set(cfgs[last_cfg][1]) == set(wanted) and cfgs[last_cfg][2] == nth:
         wcfg = last_cfg
+    def final_lo(ci):
+        # with --tail N the final snapshot holds the last N records of the (complete) input
+        inp = cfgs[ci][0] if ci < len(cfgs) else -1
+        return max(0, sizes.get(inp, 0) - tail) if tail else 0
     evs.append({"ev": "end", "q": get["query"], "total": get["totalCount"], "sort": get["sort"], "getres": fnv_res(ids),
-                "matchCount": get["matchCount"], "wcfg": wcfg})
-    keys.add((get["query"], get["totalCount"], get["sort"], last_cfg))
-    keys.add((get["query"], get["totalCount"], get["sort"], wcfg))
+                "matchCount": get["matchCount"], "wcfg": wcfg, "lo": final_lo(last_cfg), "wlo": final_lo(wcfg)})
+    keys.add((get["query"], final_lo(last_cfg), get["totalCount"], get["sort"], last_cfg))
+    keys.add((get["query"], final_lo(wcfg), get["totalCount"], get["sort"], wcfg))
     return evs, keys, cfgs
 
 
-def oracle(fzf, lines, q, n, sort, extra_args=(), excluded=(), nth="", raw=False):
-    """What a fresh `fzf --filter q` prints for the first n input lines, as item indices (minus excluded items)."""
+def oracle(fzf, lines, q, n, sort, extra_args=(), excluded=(), nth="", raw=False, lo=0):
+    """What a fresh `fzf --filter q` prints for the n input lines from line lo on (lo > 0 only under --tail), as item
+    indices (minus excluded items)."""
     args = [fzf, "--filter", q] + list(extra_args)
     if nth:
         args += ["--nth", nth]
     if not sort:
         args.append("+s")
-    r = subprocess.run(args, input=("".join(l + "\n" for l in lines[:n])).encode(), capture_output=True, env=go_env(), timeout=120)
+    r = subprocess.run(args, input=("".join(l + "\n" for l in lines[lo:lo + n])).encode(), capture_output=True, env=go_env(), timeout=120)
     if r.returncode not in (0, 1):
         raise Infra("oracle fzf --filter %r exited %d: %s" % (q, r.returncode, r.stderr[:200]))
     ids = [int(l.split(b" ", 1)[0]) for l in r.stdout.split(b"\n") if l]
@@ -347,5 +357,5 @@ def oracle(fzf, lines, q, n, sort, extra_args=(), excluded=(), nth="", raw=False
     return fnv_res(ids)
 
 
-def okey(sid, q, n, sort, cfg=0):
-    return "%d|%s|%d|%s|%d" % (sid, q, n, "s" if sort else "u", cfg)
+def okey(sid, q, lo, n, sort, cfg=0):
+    return "%d|%s|%d|%d|%s|%d" % (sid, q, lo, n, "s" if sort else "u", cfg)
